@@ -202,6 +202,8 @@ theorem win_run (i : Nat) (hi : i < 4) : ∀ (ops : List SOp) (c : Core) (h : Li
 
 /-! ## the decision of `decrypt` depends on the addressed slot only -/
 
+-- all four generated guards of `decrypt` are listed in each `simp only`, whether the branch at hand needs them or not
+set_option linter.unusedSimpArgs false in
 /-- the verdict of `decrypt` is a function of the half, and of key and window floor of the addressed slot -/
 theorem decrypt_congr (c c' : Core) (d : Dgram) (hhalf : c'.half = c.half)
     (hslot : (c'.slots[d.keyId]?).map (fun k => (k.key, k.min)) = (c.slots[d.keyId]?).map (fun k => (k.key, k.min))) :
@@ -214,17 +216,20 @@ theorem decrypt_congr (c c' : Core) (d : Dgram) (hhalf : c'.half = c.half)
       simp only
       -- both errors are computed by the same tests
       by_cases h1 : d.len < Generated.EXTRA_LEN + Generated.TAG_LEN
-      · simp only [Core.decrypt, h1, if_true] at he he'
+      · simp only [Core.decrypt, Generated.datagramTooShort, Generated.keyIdInvalid, Generated.nonceTooOld,
+                Generated.seenAdvances, decide_eq_true_eq, h1, if_true] at he he'
         rw [← (Prod.mk.inj he).2, ← (Prod.mk.inj he').2]
-      by_cases h2 : d.keyId ≥ Core.SLOTS
-      · simp only [Core.decrypt, h1, h2, if_true, if_false] at he he'
+      by_cases h2 : d.keyId ≥ 4
+      · simp only [Core.decrypt, Generated.datagramTooShort, Generated.keyIdInvalid, Generated.nonceTooOld,
+                Generated.seenAdvances, decide_eq_true_eq, h1, h2, if_true, if_false] at he he'
         rw [← (Prod.mk.inj he).2, ← (Prod.mk.inj he').2]
       cases hk : c.slots[d.keyId]? with
       | none =>
         rw [hk] at hslot
         cases hk' : c'.slots[d.keyId]? with
         | none =>
-          simp only [Core.decrypt, h1, h2, hk, hk', if_false] at he he'
+          simp only [Core.decrypt, Generated.datagramTooShort, Generated.keyIdInvalid, Generated.nonceTooOld,
+                Generated.seenAdvances, decide_eq_true_eq, h1, h2, hk, hk', if_false] at he he'
           rw [← (Prod.mk.inj he).2, ← (Prod.mk.inj he').2]
         | some k' => rw [hk'] at hslot; cases hslot
       | some k =>
@@ -236,23 +241,30 @@ theorem decrypt_congr (c c' : Core) (d : Dgram) (hhalf : c'.half = c.half)
           simp only [Option.map_some, Option.some.injEq, Prod.mk.injEq] at hslot
           by_cases h3 : c.reconstruct d.counter < k.min
           · have h3' : c'.reconstruct d.counter < k'.min := by rw [hrec, hslot.2]; exact h3
-            simp only [Core.decrypt, h1, h2, hk, h3, if_true, if_false] at he
-            simp only [Core.decrypt, h1, h2, hk', h3', if_true, if_false] at he'
+            simp only [Core.decrypt, Generated.datagramTooShort, Generated.keyIdInvalid, Generated.nonceTooOld,
+                Generated.seenAdvances, decide_eq_true_eq, h1, h2, hk, h3, if_true, if_false] at he
+            simp only [Core.decrypt, Generated.datagramTooShort, Generated.keyIdInvalid, Generated.nonceTooOld,
+                Generated.seenAdvances, decide_eq_true_eq, h1, h2, hk', h3', if_true, if_false] at he'
             rw [← (Prod.mk.inj he).2, ← (Prod.mk.inj he').2]
           · have h3' : ¬ c'.reconstruct d.counter < k'.min := by rw [hrec, hslot.2]; exact h3
             cases hb : d.body with
             | garbage n =>
-              simp only [Core.decrypt, h1, h2, hk, h3, hb, if_false] at he
-              simp only [Core.decrypt, h1, h2, hk', h3', hb, if_false] at he'
+              simp only [Core.decrypt, Generated.datagramTooShort, Generated.keyIdInvalid, Generated.nonceTooOld,
+                Generated.seenAdvances, decide_eq_true_eq, h1, h2, hk, h3, hb, if_false] at he
+              simp only [Core.decrypt, Generated.datagramTooShort, Generated.keyIdInvalid, Generated.nonceTooOld,
+                Generated.seenAdvances, decide_eq_true_eq, h1, h2, hk', h3', hb, if_false] at he'
               rw [← (Prod.mk.inj he).2, ← (Prod.mk.inj he').2]
             | sealed key n p =>
               by_cases hkn : key = k.key ∧ n = c.reconstruct d.counter
-              · simp only [Core.decrypt, h1, h2, hk, h3, hb, hkn, if_false, if_true, and_self] at he
+              · simp only [Core.decrypt, Generated.datagramTooShort, Generated.keyIdInvalid, Generated.nonceTooOld,
+                Generated.seenAdvances, decide_eq_true_eq, h1, h2, hk, h3, hb, hkn, if_false, if_true, and_self] at he
                 have := (Prod.mk.inj he).2
                 cases this
               · have hkn' : ¬ (key = k'.key ∧ n = c'.reconstruct d.counter) := by rw [hrec, hslot.1]; exact hkn
-                simp only [Core.decrypt, h1, h2, hk, h3, hb, hkn, if_false] at he
-                simp only [Core.decrypt, h1, h2, hk', h3', hb, hkn', if_false] at he'
+                simp only [Core.decrypt, Generated.datagramTooShort, Generated.keyIdInvalid, Generated.nonceTooOld,
+                Generated.seenAdvances, decide_eq_true_eq, h1, h2, hk, h3, hb, hkn, if_false] at he
+                simp only [Core.decrypt, Generated.datagramTooShort, Generated.keyIdInvalid, Generated.nonceTooOld,
+                Generated.seenAdvances, decide_eq_true_eq, h1, h2, hk', h3', hb, hkn', if_false] at he'
                 rw [← (Prod.mk.inj he).2, ← (Prod.mk.inj he').2]
     · -- `c'` accepts: then `c` accepts too, contradiction
       rw [hk'] at hslot
